@@ -423,8 +423,19 @@ class Gen:
             L.append(EXT_DECLS)
         for _ in range(r.randint(1, 3)):
             L += self.make_struct()
+        # a union for type punning through its members (defined in C11 6.5.2.3, fn 95; all members are
+        # integer types without padding bits, little endian on both compilers)
+        L.append('union U0 { long long ll; struct { int lo; unsigned hi; } s; unsigned char b[8]; '
+                 'struct { short h0; unsigned short h1; struct { signed char c0; unsigned char c1; short h2; } in; } t; unsigned long ul; };')
+        UL = [('ll', 'llong'), ('s.lo', 'int'), ('s.hi', 'uint'), ('t.h0', 'short'), ('t.h1', 'ushort'), ('t.in.c0', 'schar'),
+              ('t.in.c1', 'uchar'), ('t.in.h2', 'short'), ('ul', 'ulong')] + [('b[%d]' % i, 'uchar') for i in range(8)]
+        self.features.add('union-punning')
         # globals
         gatoms, gwrit, gstruct = [], [], []
+        L.append('union U0 gu0 = { %s };' % self.const_val('llong'))
+        for mname, t in UL:
+            gatoms.append(('gu0.' + mname, t))
+            gwrit.append(('gu0.' + mname, t, 0))
         for i in range(r.randint(2, 6)):
             t = r.choice(NAMES)
             n = 'g%d' % i
@@ -519,6 +530,13 @@ class Gen:
             lstruct.append((n, si))
         atoms = gatoms + locs
         writ = gwrit + [(n, t, 0) for n, t in locs]
+        if r.random() < 0.6:
+            body.append('union U0 lu0 = { .%s = %s };' % (r.choice(['ll', 'ul', 's.hi', 't.in.h2', 'b[3]']), self.const_val('llong')))
+            for mname, t in UL:
+                atoms.append(('lu0.' + mname, t))
+                writ.append(('lu0.' + mname, t, 0))
+            if r.random() < 0.5:
+                body.append('gu0 = lu0;')
         for n, si in lstruct:
             for lv, t, w in self.leaves(si, n + '.'):
                 atoms.append((lv, t))
